@@ -30,6 +30,7 @@ type cfg struct {
 	Stop    bool
 	Runners int
 	Fail    bool   // compute fails (non-retry error) once version of R0 reaches 2
+	Retry   int    // 1: the top-level computation returns RetrySentinelError once, after registering its dependencies, when item 0 is at version >= 1; 2: the same inside its first cached child
 	Pre     string // items written one at a time by the main thread, each followed by quiescence, before the concurrent phase ("-" = none)
 }
 
@@ -39,16 +40,27 @@ func (c cfg) name() string {
 }
 
 func (c cfg) pre() string {
-	if c.Pre == "" {
-		return ""
+	s := ""
+	if c.Pre != "" || c.Retry != 0 {
+		p := c.Pre
+		if p == "" {
+			p = "-"
+		}
+		s += " pre=" + p
 	}
-	return " pre=" + c.Pre
+	if c.Retry != 0 {
+		s += fmt.Sprintf(" retry=%d", c.Retry)
+	}
+	return s
 }
 
 func parse(s string) cfg {
 	var c cfg
-	s = strings.NewReplacer("shape=", "", "mode=", "", "nres=", "", "writers=", "", "writes=", "", "spawn=", "", "minint=", "", "wtr=", "", "stop=", "", "runners=", "", "fail=", "", "pre=", "").Replace(s)
-	fmt.Sscan(s, &c.Shape, &c.Mode, &c.NRes, &c.Writers, &c.Writes, &c.Spawn, &c.MinInt, &c.WTR, &c.Stop, &c.Runners, &c.Fail, &c.Pre)
+	s = strings.NewReplacer("shape=", "", "mode=", "", "nres=", "", "writers=", "", "writes=", "", "spawn=", "", "minint=", "", "wtr=", "", "stop=", "", "runners=", "", "fail=", "", "pre=", "", "retry=", "").Replace(s)
+	fmt.Sscan(s, &c.Shape, &c.Mode, &c.NRes, &c.Writers, &c.Writes, &c.Spawn, &c.MinInt, &c.WTR, &c.Stop, &c.Runners, &c.Fail, &c.Pre, &c.Retry)
+	if c.Pre == "-" {
+		c.Pre = ""
+	}
 	return c
 }
 
@@ -147,6 +159,8 @@ type runner struct {
 	failed    bool
 	stopped   bool
 	afterLeft int
+	retried   bool
+	retries   int
 }
 
 var errStop = errors.New("computation failed")
@@ -163,10 +177,29 @@ func (rn *runner) compute(ctx context.Context) (interface{}, error) {
 		w.x.Fail("no-overlap", "", "runner %d: %d runs in progress", rn.id, rn.running)
 	}
 	out := &output{}
+	usedAfter := false
 	var cacheErr error
+	retryNow := func(o *output) bool { // a transient failure, once, after the dependencies have been registered
+		if w.c.Retry == 0 || rn.retried || len(o.reads) == 0 || o.reads[0].res != 0 || o.reads[0].ver < 1 {
+			return false
+		}
+		rn.retried = true
+		rn.retries++
+		rt.Note("transient failure (RetrySentinelError) after reading %v", o.reads)
+		return true
+	}
+	firstChild := true
 	cached := func(ctx context.Context, key string, f func(ctx context.Context) *output) *output {
-		v, err := reactive.Cache(ctx, key, func(ctx context.Context) (interface{}, error) { return f(ctx), nil })
-		if err != nil { // only possible when the run's context was cancelled (Stop)
+		inChild := w.c.Retry == 2 && firstChild
+		firstChild = false
+		v, err := reactive.Cache(ctx, key, func(ctx context.Context) (interface{}, error) {
+			o := f(ctx)
+			if inChild && retryNow(o) {
+				return nil, reactive.RetrySentinelError
+			}
+			return o, nil
+		})
+		if err != nil { // the run's context was cancelled (Stop), or the injected transient failure
 			cacheErr = err
 			return &output{reads: []read{{0, -1}}}
 		}
@@ -216,6 +249,7 @@ func (rn *runner) compute(ctx context.Context) (interface{}, error) {
 		out.merge(w.readRes(ctx, 0))
 		if rn.afterLeft > 0 {
 			rn.afterLeft--
+			usedAfter = true
 			reactive.InvalidateAfter(ctx, 10*time.Millisecond)
 		} else {
 			// a far deadline that Stop / supersession must disarm through the cleanup callback
@@ -224,12 +258,21 @@ func (rn *runner) compute(ctx context.Context) (interface{}, error) {
 	}
 	w.touch()
 	rn.running--
+	if cacheErr == reactive.RetrySentinelError && w.c.Retry == 2 {
+		return nil, cacheErr // the rerunner retries; this attempt's resources must be released
+	}
 	if cacheErr != nil {
 		if ctx.Err() == nil {
 			w.x.Fail("cache-error", "", "reactive.Cache failed although the context is live: %v", cacheErr)
 		}
 		rn.failed = true
 		return nil, cacheErr
+	}
+	if w.c.Retry == 1 && retryNow(out) {
+		if usedAfter {
+			rn.afterLeft++ // the failed attempt does not count as one of the two short-deadline runs
+		}
+		return nil, reactive.RetrySentinelError
 	}
 	if w.c.Fail && len(out.reads) > 0 && out.reads[0].ver >= 2 {
 		rn.failed = true
@@ -402,6 +445,10 @@ func c04configs(tier string) []cfg {
 	out = append(out, cfg{Shape: "twolevel", Mode: "perrun", NRes: 2, Writers: 2, Writes: 1, Runners: 1, Pre: "10"})
 	out = append(out, cfg{Shape: "twolevel", Mode: "strobe", NRes: 2, Writers: 2, Writes: 1, Runners: 1, Pre: "10"})
 	out = append(out, cfg{Shape: "shared", Mode: "perrun", NRes: 2, Writers: 2, Writes: 1, Runners: 1, Stop: true, Pre: "01"})
+	for _, shape := range []string{"direct", "cache"} {
+		out = append(out, cfg{Shape: shape, Mode: "perrun", NRes: 1, Writers: 1, Writes: 2, Runners: 1, Retry: 1},
+			cfg{Shape: shape, Mode: "strobe", NRes: 1, Writers: 1, Writes: 2, Runners: 1, Retry: 1, Stop: true})
+	}
 	if tier == "thorough" {
 		for _, mode := range []string{"strobe", "perrun"} {
 			for _, shape := range []string{"direct", "cache", "twolevel"} {
@@ -430,6 +477,16 @@ func c08configs(tier string) []cfg {
 	for _, pre := range []string{"00", "000", "0010"} {
 		out = append(out, cfg{Shape: "cond", Mode: "perrun", NRes: 2, Writers: 2, Writes: 1, Runners: 1, Pre: pre})
 	}
+	// a transient failure (RetrySentinelError) of one attempt, at the top level or inside a cached child: the failed
+	// attempt's resources are released, the retry converges
+	for _, shape := range []string{"cache", "shared", "twolevel"} {
+		for _, retry := range []int{1, 2} {
+			out = append(out, cfg{Shape: shape, Mode: "perrun", NRes: 2, Writers: 1, Writes: 2, Runners: 1, Retry: retry})
+			out = append(out, cfg{Shape: shape, Mode: "perrun", NRes: 2, Writers: 1, Writes: 1, Runners: 1, Retry: retry, Stop: true})
+		}
+	}
+	out = append(out, cfg{Shape: "direct", Mode: "perrun", NRes: 2, Writers: 1, Writes: 2, Runners: 1, Retry: 1},
+		cfg{Shape: "after", Mode: "perrun", NRes: 1, Writers: 1, Writes: 1, Runners: 1, Retry: 1})
 	out = append(out, cfg{Shape: "purge", Mode: "perrun", NRes: 2, Writers: 1, Writes: 2, Runners: 1, Pre: "10"})
 	if tier == "thorough" {
 		for _, shape := range []string{"cache", "twolevel", "cond", "purge"} {
